@@ -1,4 +1,5 @@
 import AL.Model.Calls
+import AL.Model.CallType
 import Driver.Util
 namespace Driver.CallsD
 open AL.Calls Driver
@@ -37,6 +38,21 @@ def handle : List String → String
       | some ins, some secs, some wi, some si => out (checkCall ins secs wi si (inh = "1"))
       | _, _, _, _ => "bad-op"
     | _, _, _, _ => "bad-op"
+  | _ => "bad-op"
+
+/-- `calltype <decl: string|number|bool|any> <shape: null|bool|number|other|embedded|several|whole:<ty>>` → 0/1 -/
+def handleCallType : List String → String
+  | [d, sh] =>
+    let tyOfS : String → Option AL.Ty := fun s => match s with
+      | "string" => some .string | "number" => some .number | "bool" => some .bool | "any" => some .any | "null" => some .null
+      | _ => none
+    let shape : Option AL.CallType.Shape := match sh with
+      | "null" => some (.literal .null) | "bool" => some (.literal .bool) | "number" => some (.literal .number)
+      | "other" => some (.literal .other) | "embedded" => some .embedded | "several" => some .several
+      | s => if s.startsWith "whole:" then (tyOfS (s.drop 6).toString).map .whole else none
+    match tyOfS d, shape with
+    | some dt, some s => if AL.CallType.reported dt s then "1" else "0"
+    | _, _ => "bad-op"
   | _ => "bad-op"
 
 end Driver.CallsD
